@@ -172,20 +172,54 @@ def extract(run, scratch):
             sys.argv = [modname, dest]
             with quiet():
                 g = runpy.run_module(modname, run_name="__main__")
+        except SystemExit as ex:        # an entry point written as sys.exit(main()): status 0 / None is success
+            if ex.code not in (None, 0):
+                main_err = f"SystemExit: {ex.code}"
         except BaseException as ex:     # noqa: the shipped entry point itself fails
             main_err = f"{type(ex).__name__}: {ex}"
         finally:
             sys.argv = argv
-        if main_err is not None or "eqs" not in (g or {}):
+        if main_err is not None:
             run.violation(f"{s}/generate/raises/default", f"`python -m {modname} <dir>` fails: {main_err}",
                           {"kind": "main", "set": s, "error": main_err})
-            # fall back to the export list read from the source
-            g = {n: getattr(mod, n) for n in called}
-            eqs = {}
-            for n in called:
-                eqs.update(g[n]())
-        else:
+        if main_err is None and isinstance((g or {}).get("eqs"), dict) and g["eqs"]:
             eqs = g["eqs"]
+        else:
+            # the entry point failed, or it does not leave its equation set in a module-level variable `eqs` (its body may
+            # live in a function): what it ships is what its ARTEFACT defines -- read the C file(s) it wrote and take the
+            # functions of that name from the library's own derivations; fall back to the derive_*() calls of the source
+            eqs = {}
+            shipped = []
+            if main_err is None:
+                for fn_ in sorted(os.listdir(dest)):
+                    if fn_.endswith(".c"):
+                        try:
+                            shipped += [d_ for d_ in parse_artifact(os.path.join(dest, fn_), os.path.join(dest, fn_[:-2] + ".h"))["defs"]]
+                            filename = filename or fn_
+                        except Exception:       # noqa
+                            pass
+            pool = {}
+            for n in defined:
+                try:
+                    with quiet():
+                        for k_, f_ in getattr(mod, n)().items():
+                            if isinstance(f_, ca.Function):
+                                pool.setdefault(f_.name(), (k_, f_))
+                except Exception:       # noqa
+                    pass
+            if shipped:
+                run.spec_drift(f"{s}/export_list/read_from_artefact", "the entry point keeps its equation set out of the module namespace; "
+                               "the functions it ships are read from the C file it writes")
+                for nm_ in shipped:
+                    if nm_ in pool:
+                        eqs[pool[nm_][0]] = pool[nm_][1]
+            if not eqs:
+                g = {n: getattr(mod, n) for n in called}
+                for n in called:
+                    eqs.update(g[n]())
+            if not eqs:
+                for nm_, (k_, f_) in pool.items():
+                    eqs[k_] = f_
         # export-list sanity: a later eqs.update() silently replaces an earlier function with the same key
         owner = {}
         for n in called:
@@ -1312,6 +1346,9 @@ def main():
                 with quiet():
                     runpy.run_module(info[s]["modname"], run_name="__main__")
                 ran.append(s)
+            except SystemExit as ex:
+                if ex.code in (None, 0):
+                    ran.append(s)
             except BaseException:       # noqa: already reported by the extraction step
                 pass
             finally:
